@@ -139,9 +139,14 @@ func c07(c *Ctx) {
 				if ctx != "top" && vi%3 != 0 {
 					continue
 				}
-				M := wrapInContext(ctxMD, rootMD, []*dynamicpb.Message{rv.M, rootVals[(vi+1)%len(rootVals)].M})
+				second := rootVals[(vi+1)%len(rootVals)]
+				M := wrapInContext(ctxMD, rootMD, []*dynamicpb.Message{rv.M, second.M})
+				vclass := rv.Class
+				if ctx == "repeated" || ctx == "map" || ctx == "root_list" {
+					vclass += "+" + second.Class
+				}
 				// response direction
-				caseID := fmt.Sprintf("%s/ctx=%s/dir=resp@%s", base, ctx, rv.Class)
+				caseID := fmt.Sprintf("%s/ctx=%s/dir=resp@%s", base, ctx, vclass)
 				if c.Want(caseID) {
 					gs.Script(rpc, map[string]any{"resp": b64(wire(M))})
 					emptyTree, _ := enc.Message(dynamicpb.NewMessage(ctxMD))
@@ -160,7 +165,7 @@ func c07(c *Ctx) {
 					}
 				}
 				// request direction: contract-form body that the server accepts
-				caseID = fmt.Sprintf("%s/ctx=%s/dir=req@%s", base, ctx, rv.Class)
+				caseID = fmt.Sprintf("%s/ctx=%s/dir=req@%s", base, ctx, vclass)
 				if c.Want(caseID) {
 					tree, merr := enc.Message(M)
 					if merr != nil {
